@@ -39,6 +39,8 @@ func checkC17(c *Ctx) {
 	c.Rule("C17-R2", "CanDisplay's success predicate is the negation of encodeRune's failure predicate; ACS lookup independent of checkFallbacks, fallback lookup dependent on it")
 	c.Rule("C17-R3", "vtACSNames maps the 32 terminfo(5) acsc letters to the right Rune constants (which are the right Unicode characters); buildAcsMap brackets glyphs with EnterAcs/ExitAcs and walks AltChars in pairs including the last")
 	c.Rule("C17-R4", "getCharset: LC_ALL, then LC_CTYPE, then LANG; POSIX and C mean US-ASCII")
+	c.Rule("C17-R10", "drawCell hands every combining rune GetContent returned to the encoder: the encodeRune call in the loop over the combining list is guarded by the loop alone, not by the charset's name or a flag of the screen")
+	c.Expect("C17-R10", 1)
 	c.Rule("C17-R9", "cell content reaches the charset encoder one rune at a time through encodeRune, called by drawCell only with the runes GetContent returned (the failure test - empty output or a leading SUB - is a test of one rune's output)")
 	c.Expect("C17-R9", 3)
 	c.Rule("C17-R5", "the fallback map is consulted by direct lookup only and never copied after construction; it is seeded where it is made (before the application holds the screen) and afterwards changed one entry at a time by Register/Unregister only")
@@ -47,7 +49,7 @@ func checkC17(c *Ctx) {
 	c.Expect("C17-R8", 25)
 	c.Rule("C17-R7", "the buffer the charset encoder writes into has a constant size of at least 4 bytes in encodeRune and CanDisplay (not sized by the rune's UTF-8 length)")
 	c.Expect("C17-R7", 2)
-	for r, n := range map[string]int{"C17-R1": 3, "C17-R2": 3, "C17-R3": 32 + 31 + 3, "C17-R4": 3, "C17-R5": 2, "C17-R6": 3} {
+	for r, n := range map[string]int{"C17-R1": 3, "C17-R2": 3, "C17-R3": 32 + 31 + 3, "C17-R4": 3, "C17-R5": 3, "C17-R6": 3} {
 		c.Expect(r, n)
 	}
 	p := c.P("linux")
@@ -206,6 +208,8 @@ func checkC17(c *Ctx) {
 		c.Check(badW == "" && nW >= 2, "C17-R5", "fallback:writers", "-", fmt.Sprintf("%d insertions: seeding where the map is made, one entry in RegisterRuneFallback %s", nW, badW))
 	}
 	c.asRule("C09-R4", "C17-R9", func() { c09Payload(c, p) })
+	checkFallbackOwnership(c, p, "C17-R5", "tScreen")
+	checkCombiningUnconditional(c, p, "C17-R10")
 	c17Registry(c, p)
 	c17Table(c, p)
 }
